@@ -25,9 +25,9 @@ EXPLANATION = ("(i) ORDER CONDITIONS. The library's own integrator classes take 
                "error-controlled stepTo runs.")
 BOUNDS = ("integrators ExplicitEuler(p=1), RungeKutta2(2), RungeKutta3(3), RungeKuttaMerson(4), RungeKuttaFeldberg(documented 5), Verlet(2), "
           "SemiExplicitEuler(1), SemiExplicitEuler2(1); one internal step; ODE families listed in the explanation (1-2 state variables); free: h, lam, "
-          "initial values, quadrature coefficients, constant force (all reals), other ODE coefficients pinned at 2 (quick) / 4 (thorough) exact base points; "
+          "initial values, quadrature coefficients, constant force (all reals), other ODE coefficients pinned at 2 (quick) / 3 (thorough) exact base points; "
           "Verlet: only h free; coupled quadratic system: h plus initial values/coefficients for the 1-3 stage methods, h only for RKM/RKF; path-condition "
-          "literals larger than 12 terms (error-norm comparisons, irrelevant under a fixed step) are left out of the hypotheses; adjustStepSize: 1 call per run, scenario seeds x path flips (budget 2 quick / 12 thorough "
+          "literals larger than 12 terms (error-norm comparisons, irrelevant under a fixed step) are left out of the hypotheses; adjustStepSize: 1 call per run, scenario seeds x path flips (budget 2 quick / 6 thorough "
           "paths per scenario), error orders 2,3,4")
 NOT_COVERED = ("global error <= K*accuracy over an interval and its monotonicity in the accuracy (an error bound over many steps, not an identity); CPodes "
                "(BDF/Adams, external-style C code with its own controller); order conditions are proved on the listed ODE families, not for arbitrary "
@@ -56,7 +56,7 @@ def _instances(tier, seed):
         if ig not in ITERATIVE:
             systems.append("nl")
         for sk in systems:
-            out.append(dict(name="order/%s/%s" % (ig, sk), args=["order", ig, sk], paths=1, base_points=(2 if not thorough else 4),
+            out.append(dict(name="order/%s/%s" % (ig, sk), args=["order", ig, sk], paths=1, base_points=(2 if not thorough else 3),
                             max_terms=60000, pc_max_terms=12))
         d = min(p, 3)
         isys = ["quad%d" % d] + (["mbsF"] if p >= 2 else [])
@@ -72,8 +72,8 @@ def _instances(tier, seed):
             if not thorough and (fl in ("min+lim", "o2", "o3+max", "max") or (fl == "lim" and cn in ("edge", "worse", "keep"))):
                 continue
             sd = dict(err=ev, acc=acc, hcur=hc, hmin=hc * (1.0 if cn in ("bad", "awful") and "lim" not in fl else 0.75), hmax=hc * (1.5 if cn != "keep" else 1.0))
-            out.append(dict(name="adjust/%s/%s" % (fl or "plain", cn), args=["adjust", "RungeKuttaMerson", fl], paths=(2 if not thorough else 12), base_points=1,
-                            flips_per_path=(2 if not thorough else 8), seedcase=sd))
+            out.append(dict(name="adjust/%s/%s" % (fl or "plain", cn), args=["adjust", "RungeKuttaMerson", fl], paths=(2 if not thorough else 6), base_points=1,
+                            flips_per_path=(2 if not thorough else 4), seedcase=sd))
         for sp in ("inf", "nan"):
             if not thorough and fl not in ("", "min+max"):
                 continue
